@@ -336,6 +336,7 @@ package parse
 //@   ensures[S]  arg0 != nil && len(arg0) >= arg1 && result0 != nil ==> sameMem(result0, arg0[0:len(result0)])
 //@   ensures[F]  @length: arg1 > 0 && result1 == nil ==> len(result0) == arg1 && arg2 + arg1 <= clen(recv)
 //@   ensures[F]  @content: forall(i, 0, len(result0), result0[i] == content(recv, arg2 + i))
+//@   ensures[F]  @frame: ite(arg0 == nil, sameBytes(), sameBytesExcept(ptr(arg0), ptr(arg0) + len(arg0)))
 
 // the in-memory back end defines the abstract view as its data slice
 //@ pred bytesView(r) := clen(r) == len(r.data) && forall(i, 0, len(r.data), content(r, i) == r.data[i])
@@ -512,9 +513,17 @@ package parse
 //@   requires[S] w != nil && w.ByteOrder != nil
 
 // ---- io contracts (assumed for external implementations; the repository's own Read/ReadAt/Seek are verified against them)
+// Ghost model of a byte stream: stream(r, i) is the i-th byte reader r delivers over its lifetime and delivered(r) the
+// number of bytes it has delivered so far. The clauses tagged "ghost" define this state from Read's observable behaviour
+// (they hold for every reader by construction) and are therefore assumed at call sites and not imposed on implementations.
+//@ ghost stream(r, i)
+//@ ghostfield delivered
 //@ iface io.Reader.Read
-//@   modifies M.uint8
+//@   modifies M.uint8, G.delivered
 //@   ensures[S] 0 <= result0 && result0 <= len(arg0)
+//@   ensures[F] @frame: sameBytesExcept(ptr(arg0), ptr(arg0) + len(arg0))
+//@   ensures[F,ghost] @count: delivered(recv) == old(delivered(recv)) + result0 && old(delivered(recv)) >= 0
+//@   ensures[F,ghost] @data: forall(k, 0, result0, arg0[k] == stream(recv, old(delivered(recv)) + k))
 //@ iface io.ReaderAt.ReadAt
 //@   modifies M.uint8
 //@   ensures[S] 0 <= result0 && result0 <= len(arg0)
